@@ -49,6 +49,9 @@ def main(argv):
     mod = importlib.import_module(modname)
     obs = [o for o in R.OBLIGATIONS.values() if o.prop == pid and (tier == 'thorough' or not o.opts.get('thorough_only'))]
     bnd = [o for o in R.BOUNDED.values() if o.prop == pid and (tier == 'thorough' or not o.opts.get('thorough_only'))]
+    only = os.environ.get('VERIF_ONLY')        # debugging aid only (never set by a registered command)
+    if only:
+        obs = [o for o in obs if only in o.name]; bnd = [o for o in bnd if only in o.name]
     meta = R.META.get(pid, {})
     nproc = int(os.environ.get('VERIF_JOBS', '16'))
     results = []; bres = []
@@ -80,9 +83,11 @@ def main(argv):
 def report(pid, tier, seed, modname, obs, results, bres, meta, t0):
     known = load_findings()
     kf = [f for f in known.get('findings', []) if f['property'] == pid]
-    os.makedirs(os.path.join(ROOT, 'evidence'), exist_ok=True)
+    scratch = os.path.abspath(os.environ.get('PYPOSE_REPO', '/repo')) != '/repo'
+    evdir = os.path.join(ROOT, 'replays', '_scratch_evidence') if scratch else os.path.join(ROOT, 'evidence')   # evidence/ only ever describes /repo
+    os.makedirs(evdir, exist_ok=True)
     rdir = os.path.join(ROOT, 'replays', pid)
-    if os.environ.get('PYPOSE_REPO', '/repo') == '/repo':
+    if not scratch:
         import shutil; shutil.rmtree(rdir, ignore_errors=True)      # stale replays of earlier runs are not evidence of this run
     n_ob = n_dis = n_known_ob = 0
     violations = []; known_hits = []; undecided = []; crashes = []
@@ -109,6 +114,8 @@ def report(pid, tier, seed, modname, obs, results, bres, meta, t0):
             canaries['total'] += 1
             if r['status'] == 'failed':
                 canaries['refuted'] += 1
+            elif r['status'] == 'gap':
+                undecided.append((r['name'], 'canary could not be run (engine gap): ' + '; '.join(r.get('gaps') or [])[:300]))
             else:
                 crashes.append((r['name'], f"canary not refuted (status {r['status']}): {r.get('why', '')[:500]}"))
             rec['canary'] = True
@@ -177,9 +184,9 @@ def report(pid, tier, seed, modname, obs, results, bres, meta, t0):
                 json.dump(dict(property=pid, module=modname, bounded=b['name'], clause=fl.get('clause'), failure=fl,
                                replay_cmd=f"./check --replay {os.path.relpath(rp, ROOT)}"), open(rp, 'w'), indent=1, default=str)
             if not any(v[1] == rp for v in violations):
-                violations.append((b['name'] + ':' + fl.get('clause', 'bounded'), rp, True))
+                violations.append((b['name'] + ':' + fl.get('clause', 'bounded'), rp, not fl.get('no_input')))
     minimum = meta.get('min_obligations', 1)
-    if n_ob < minimum:
+    if n_ob < minimum and not gaps:      # obligations lost to an engine gap are reported as such above
         crashes.append(('vacuity', f'only {n_ob} obligations generated, registered minimum is {minimum}'))
     wall = time.time() - t0
     printed = []
@@ -221,7 +228,7 @@ def report(pid, tier, seed, modname, obs, results, bres, meta, t0):
         assumptions=meta.get('assumptions', []) + ['machine arithmetic treated as real arithmetic in all deductive obligations'],
         wall_s=round(wall, 2), violations=len(violations))
     ev['coverage'] = {k: v for k, v in ev['coverage'].items() if v is not None}
-    json.dump(ev, open(os.path.join(ROOT, 'evidence', f'{pid}.json'), 'w'), indent=1, default=str)
+    json.dump(ev, open(os.path.join(evdir, f'{pid}.json'), 'w'), indent=1, default=str)
     print(f"{pid} {tier}: obligations={n_ob} discharged={n_dis} paths={n_paths} canaries={canaries['refuted']}/{canaries['total']} "
           f"bounded={len(bres)} known={len(printed)} violations={len(violations)} undecided={len(undecided)} errors={len(crashes)} wall={wall:.1f}s")
     if violations: return 1
